@@ -28,10 +28,22 @@ import (
 type identityDictionary struct {
 	mu sync.Mutex
 	// dict is a global cache of identities keyed by
-	// modulename:identityname, where modulename is the full name of the
-	// module to which the identity belongs. If the identity were defined
-	// in a submodule, then the parent module name is used instead.
+	// modulename:identityname, where modulename is the full name
+	// (name@revision) of the module to which the identity belongs. If the
+	// identity were defined in a submodule, then the full name of the
+	// module that includes it is used instead.
 	dict map[string]resolvedIdentity
+	// owners lists, for every module and submodule, the modules its
+	// identities are filed under: the module itself, or the modules that
+	// include the submodule (directly or through other submodules),
+	// ordered by full name.
+	owners map[*Module][]*Module
+}
+
+// identityKey returns the key in the identity dictionary of the identity
+// called name that belongs to module owner.
+func identityKey(owner *Module, name string) string {
+	return fmt.Sprintf("%s:%s", owner.FullName(), name)
 }
 
 // resolvedIdentity is an Identity that has been disambiguated.
@@ -45,15 +57,16 @@ func (r resolvedIdentity) isEmpty() bool {
 	return r.Module == nil && r.Identity == nil
 }
 
-// newResolvedIdentity creates a resolved identity from an identity and its
-// associated module, and returns the prefixed name (Prefix:IdentityName)
-// along with the resolved identity.
-func newResolvedIdentity(m *Module, i *Identity) (string, *resolvedIdentity) {
+// newResolvedIdentity creates a resolved identity from an identity, the
+// module or submodule m that defines it and the module owner it belongs to,
+// and returns its key in the identity dictionary along with the resolved
+// identity.
+func newResolvedIdentity(owner, m *Module, i *Identity) (string, *resolvedIdentity) {
 	r := &resolvedIdentity{
 		Module:   m,
 		Identity: i,
 	}
-	return i.modulePrefixedName(), r
+	return identityKey(owner, i.Name), r
 }
 
 func appendIfNotIn(ids []*Identity, chk *Identity) []*Identity {
@@ -63,6 +76,15 @@ func appendIfNotIn(ids []*Identity, chk *Identity) []*Identity {
 		}
 	}
 	return append(ids, chk)
+}
+
+func appendModuleIfNotIn(ms []*Module, chk *Module) []*Module {
+	for _, m := range ms {
+		if m == chk {
+			return ms
+		}
+	}
+	return append(ms, chk)
 }
 
 // addChildren adds identity r and all of its children to ids
@@ -99,15 +121,14 @@ func (mod *Module) findIdentityBase(baseStr string) (*resolvedIdentity, []error)
 	case "", rootPrefix:
 		// This is a local identity which is defined within the current
 		// module
-		owner := module(mod)
-		if owner == nil {
-			// mod is a submodule whose module is not loaded.
-			owner = mod
-		}
-		keyName := fmt.Sprintf("%s:%s", owner.Name, baseName)
-		base, ok = typeDict.identities.dict[keyName]
+		base, ok = typeDict.identities.find(mod, baseName)
 		if !ok {
-			errs = append(errs, fmt.Errorf("%s: can't resolve the local base %s as %s", source, baseStr, keyName))
+			owner := module(mod)
+			if owner == nil {
+				// mod is a submodule whose module is not loaded.
+				owner = mod
+			}
+			errs = append(errs, fmt.Errorf("%s: can't resolve the local base %s as %s:%s", source, baseStr, owner.Name, baseName))
 		}
 	default:
 		// This is an identity which is defined within another module
@@ -117,11 +138,9 @@ func (mod *Module) findIdentityBase(baseStr string) (*resolvedIdentity, []error)
 				fmt.Errorf("%s: can't find external module with prefix %s", source, basePrefix))
 			break
 		}
-		// The identity we are looking for is modulename:basename.
-		if m := module(extmod); m != nil {
-			extmod = m
-		}
-		if id, ok := typeDict.identities.dict[fmt.Sprintf("%s:%s", extmod.Name, baseName)]; ok {
+		// The identity we are looking for is basename in that very
+		// revision of the module.
+		if id, ok := typeDict.identities.find(extmod, baseName); ok {
 			base = id
 			break
 		}
@@ -135,6 +154,17 @@ func (mod *Module) findIdentityBase(baseStr string) (*resolvedIdentity, []error)
 	return &base, errs
 }
 
+// find returns the identity called name among the identities of the module
+// mod or, if mod is a submodule, of the modules that include it.
+func (d *identityDictionary) find(mod *Module, name string) (resolvedIdentity, bool) {
+	for _, owner := range d.owners[mod] {
+		if id, ok := d.dict[identityKey(owner, name)]; ok {
+			return id, true
+		}
+	}
+	return resolvedIdentity{}, false
+}
+
 func (ms *Modules) resolveIdentities() []error {
 	defer ms.typeDict.identities.mu.Unlock()
 	ms.typeDict.identities.mu.Lock()
@@ -144,6 +174,7 @@ func (ms *Modules) resolveIdentities() []error {
 	// Start afresh: an earlier call may have seen other modules, and bound
 	// includes to other revisions, than this one.
 	ms.typeDict.identities.dict = map[string]resolvedIdentity{}
+	ms.typeDict.identities.owners = map[*Module][]*Module{}
 	for _, m := range ms.loaded {
 		for _, i := range m.Identities() {
 			i.Values = nil
@@ -154,17 +185,47 @@ func (ms *Modules) resolveIdentities() []error {
 	// from them, and compile them into a "fully resolved" map that means that
 	// we can look them up based on the 'real' prefix of the module and the
 	// name of the identity.
-	for _, mod := range ms.Modules {
+	//
+	// Every loaded revision of a module has identities of its own: ms.Modules
+	// lists a module under its name and under name@revision, so visit each
+	// one once, in the order of their full names.
+	visited := map[*Module]bool{}
+	for _, mod := range sortedModules(ms.Modules) {
+		if visited[mod] {
+			continue
+		}
+		visited[mod] = true
 		// Together with the identities of mod itself, hoist up all
 		// identities in the submodules it includes, directly or through
 		// other submodules.  We could just do a range on ms.SubModules,
 		// but that might process a submodule that no module included.
 		for _, m := range wholeModule(mod) {
+			owner := mod
+			if m.BelongsTo != nil && m.BelongsTo.Name != mod.Name {
+				// A submodule of some other module: its identities
+				// stay with the module it belongs to.
+				if owner = module(m); owner == nil {
+					owner = m
+				}
+			}
+			ms.typeDict.identities.owners[m] = appendModuleIfNotIn(ms.typeDict.identities.owners[m], owner)
 			for _, i := range m.Identities() {
-				keyName, r := newResolvedIdentity(m, i)
+				keyName, r := newResolvedIdentity(owner, m, i)
 				ms.typeDict.identities.dict[keyName] = *r
 			}
 		}
+	}
+	// A submodule that no module includes looks into the module it belongs
+	// to; if that is not loaded it stands for itself.
+	for _, m := range sortedModules(ms.SubModules) {
+		if _, ok := ms.typeDict.identities.owners[m]; ok {
+			continue
+		}
+		owner := module(m)
+		if owner == nil {
+			owner = m
+		}
+		ms.typeDict.identities.owners[m] = []*Module{owner}
 	}
 
 	// Now, we want to create for all identities a view of all of their children.
@@ -204,7 +265,11 @@ func (ms *Modules) resolveIdentities() []error {
 			}
 			// The same name in different modules: order by module
 			// so that the result does not depend on map order.
-			return newValues[j].modulePrefixedName() < newValues[k].modulePrefixedName()
+			if a, b := newValues[j].modulePrefixedName(), newValues[k].modulePrefixedName(); a != b {
+				return a < b
+			}
+			// ... and in different revisions of one module.
+			return RootNode(newValues[j]).FullName() < RootNode(newValues[k]).FullName()
 		})
 		i.Identity.Values = newValues
 		for _, j := range newValues {
